@@ -548,17 +548,27 @@ func explainText(want []stl.Row, got string, self bool) []string {
 		used := 0
 		for i, row := range want {
 			for _, r := range row {
-				t := r.Text
-				for j, cs := range charSubs {
-					if mask&(1<<j) != 0 && strings.ContainsRune(t, cs.r) {
-						used |= 1 << j
-						to := cs.ref
-						if self {
-							to = cs.self
+				// simultaneous substitution (the image of one character may be another of the three)
+				var sb strings.Builder
+				for _, ch := range r.Text {
+					done := false
+					for j, cs := range charSubs {
+						if mask&(1<<j) != 0 && ch == cs.r {
+							used |= 1 << j
+							if self {
+								sb.WriteString(cs.self)
+							} else {
+								sb.WriteString(cs.ref)
+							}
+							done = true
+							break
 						}
-						t = strings.ReplaceAll(t, string(cs.r), to)
+					}
+					if !done {
+						sb.WriteRune(ch)
 					}
 				}
+				t := sb.String()
 				rows[i] = append(rows[i], stl.Run{Text: t, Style: r.Style})
 			}
 		}
@@ -727,8 +737,11 @@ func CheckWrite(cs Case) (fs []Finding, outcome uint64) {
 			}
 			add("stl.write.ref-time", "cue %d %s at %v is written as timecode %v at %d fps (TCP %v)", k, [2]string{"in", "out"}[j], time.Duration(t), tc, fpsOut, rd.GSI.TCP)
 		}
+		// a position outside 1..23 has no meaning under a teletext display standard (which the writer may have
+		// chosen itself when the metadata gives none): not compared then
+		vpValid := !isTeletext(dscOut) || (w.VP >= 1 && w.VP <= 23)
 		if !cs.W.NoItemStyle {
-			if r.VP != w.VP {
+			if vpValid && r.VP != w.VP {
 				add("stl.write.vp", "cue %d: vertical position %d under display standard %q is written as %d", k, w.VP, dscOut, r.VP)
 			}
 			if r.JC != w.JC {
